@@ -100,6 +100,12 @@ fn api(job: &Job, parts: &[&str], sh: &Arc<Shared>) -> Option<Ticket> {
         ["run", id] => { let sh = sh.clone(); let id = id.to_string(); job.run(move |ctx| { sh.log(format!("run:{id}:{}:{}", cs_name(ctx.current), ctx.previous.map(cs_name).unwrap_or("-".into()))); }) }
         // the internal continuation control is part of the public `Control` enum: anyone can send it
         ["continue"] => job.control(watchexec_supervisor::job::Control::ContinueTryGracefulRestart),
+        // async variants: the observable effect happens INSIDE the returned future, which the job task has to await
+        ["runasync", id] => { let sh = sh.clone(); let id = id.to_string(); job.run_async(move |ctx| { let line = format!("run:{id}:{}:{}", cs_name(ctx.current), ctx.previous.map(cs_name).unwrap_or("-".into())); Box::new(async move { tokio::task::yield_now().await; sh.log(line); }) }) }
+        ["seterrasync"] => { let sh = sh.clone(); job.set_async_error_handler(move |_| { let sh = sh.clone(); Box::new(async move { tokio::task::yield_now().await; sh.log("errh".into()); }) }) }
+        // replacing the spawn hook: the new hook installs the simulated child too, so the only difference is WHICH hook ran
+        ["sethook"] => { let sh = sh.clone(); job.set_spawn_hook(move |c, _| { sh.log("hook".into()); c.wrap(SimWrapper(sh.clone())); }) }
+        ["sethookasync"] => { let sh = sh.clone(); job.set_spawn_async_hook(move |c, _| { c.wrap(SimWrapper(sh.clone())); let sh = sh.clone(); Box::new(async move { tokio::task::yield_now().await; sh.log("hook".into()); }) }) }
         ["seterr"] => { let sh = sh.clone(); job.set_error_handler(move |_| sh.log("errh".into())) }
         ["unseterr"] => job.unset_error_handler(),
         _ => return None,
